@@ -1,4 +1,5 @@
 import Qhttp.Model.Copier
+import Qhttp.Lemmas.C14Run
 /-
   C14 — the device copier delivers exactly the requested bytes and signals completion once.
 -/
@@ -65,5 +66,121 @@ def holds (c : Cfg) (evs : List Ev) (obs : List Obs) : Bool :=
   (let tail := afterStop evs obs
    -- the completion stop() itself signals is the first `fin` of the tail
    Obs.countP isWrote tail == 0 && Obs.countP isFin tail ≤ 1)
+
+
+/-! ## Theorems
+
+  The helper lemmas live in `Qhttp/Lemmas/C14*.lean` (namespace `Qhttp.C14L`); they are stated
+  about literal copies of the definitions above (Lemmas cannot import this file), identified
+  here by `rfl`. -/
+
+theorem writtenOf_eq : writtenOf = C14L.written := rfl
+theorem isFin_eq : isFin = C14L.isFin := rfl
+theorem isErr_eq : isErr = C14L.isErr := rfl
+theorem isWrote_eq : isWrote = C14L.isWrote := rfl
+theorem anyFault_eq : anyFault = C14L.anyFault := rfl
+theorem wanted_eq : wanted = C14L.wanted := rfl
+theorem nTurns_eq : nTurns = C14L.nTurns := rfl
+
+/-- the range part of `holds`' domain: `from` inside the source, `to` = -1 ("to the end") or ≥ `from` -/
+def rangeOK (c : Cfg) : Bool :=
+  match c.range with
+  | some (f, t) => f ≥ 0 && (t ≥ f || t == -1) && f ≤ c.src.length
+  | none => true
+theorem rangeOK_eq : rangeOK = C14L.rangeOK := rfl
+
+/-- events that neither (re)start nor stop the copy -/
+def quiet (r : List Ev) : Bool := r.all fun e => e != .start && e != .stop
+
+theorem quiet_iff {r : List Ev} : quiet r = true ↔ ∀ e ∈ r, e ≠ .start ∧ e ≠ .stop := by
+  simp [quiet]
+
+/-! ### 1. random-access source, left to run -/
+
+/-- The block loop's variant.  `C14L.Running c nt s`: the copy is armed for block `nt`, positioned at
+    `from + nt * block`, and has written exactly the first `nt * block` bytes of `wanted c`.
+    One `nextBlock` either finishes the copy (`C14L.Done`: timer idle, exactly one `fin` with only
+    markers after it) or re-arms it with strictly fewer bytes of `wanted` still to copy. -/
+theorem block_loop_variant (c : Cfg) (hb : c.block ≥ 1) (hr : rangeOK c = true) (nt : Nat) (s : St)
+    (h : C14L.Running c nt s) :
+    C14L.Done c (nextBlock c { s with pending := .none }) ∨
+    (C14L.Running c (nt + 1) (nextBlock c { s with pending := .none }) ∧
+       (wanted c).length - (writtenOf (nextBlock c { s with pending := .none }).log).length <
+       (wanted c).length - (writtenOf s.log).length) :=
+  C14L.nextBlock_progress c hb (C14L.rangeNF_of_ok c hr) nt s h
+
+/-- in order, no duplication, at every moment: whatever events (other than start/stop) follow
+    `start`, and whatever devices fail, the bytes written are a prefix of the wanted bytes -/
+theorem prefix_random_access (c : Cfg) (hseq : c.seq = false) (hb : c.block ≥ 1) (hr : rangeOK c = true)
+    (r : List Ev) (hq : quiet r = true) :
+    writtenOf (Copier.run c (.start :: r)).log <+: wanted c :=
+  (C14L.run_ninv c hseq hb (C14L.rangeNF_of_ok c hr) r (quiet_iff.1 hq)).prefix
+
+/-- a random-access copy left to run for at least `|wanted| / block + 2` turns (one more than the
+    loop needs): exactly the wanted bytes, exactly one completion and it comes after the last
+    write, no error, and the timer is idle (the loop has terminated) -/
+theorem exact_random_access (c : Cfg) (hseq : c.seq = false) (hnf : anyFault c = false)
+    (hb : c.block ≥ 1) (hr : rangeOK c = true) (n : Nat) (hn : n ≥ (wanted c).length / c.block + 2) :
+    let s := Copier.run c (.start :: List.replicate n .turn)
+    writtenOf s.log = wanted c ∧
+    Obs.countP isFin s.log = 1 ∧
+    Obs.countP isErr s.log = 0 ∧
+    Obs.countP isWrote ((s.log.dropWhile (fun o => !isFin o)).drop 1) = 0 ∧
+    s.pending = .none := by
+  intro s
+  have hq : ∀ e ∈ List.replicate n Ev.turn, e ≠ .start ∧ e ≠ .stop := by
+    intro e he; rw [List.eq_of_mem_replicate he]; simp
+  have hinv := C14L.run_ninv c hseq hb (C14L.rangeNF_of_ok c hr) _ hq
+  rw [C14L.nTurns_replicate] at hinv
+  have hd : C14L.Done c s := hinv.done hb (by rw [wanted_eq] at hn; omega)
+  rcases hd.res with ⟨he, hw, _, _⟩ | ⟨_, hf⟩
+  · exact ⟨hw, hd.closed.cnt_fin, he, hd.closed.no_wrote_after, hd.pending⟩
+  · rw [← anyFault_eq, hnf] at hf; cases hf
+
+/-! ### 2. reversed range -/
+
+/-- `setRange(f, t)` with `0 ≤ t < f ≤ |src|`: nothing is written and completion is signalled
+    exactly once.  For `t < f - 1` the (negative-length) write fails, so `err` precedes the `fin`;
+    for the empty range `t = f - 1` the copy just completes.  The log is given exactly. -/
+theorem reversed_range (c : Cfg) (hseq : c.seq = false) (hnf : anyFault c = false) (f t : Int)
+    (hrange : c.range = some (f, t)) (ht0 : 0 ≤ t) (htf : t < f) (hfl : f ≤ c.src.length) (n : Nat) :
+    let s := Copier.run c (.start :: List.replicate (n + 1) .turn)
+    s.log = [Obs.ev 0, Obs.ev 1] ++ (if t + 1 < f then [err, fin] else [fin]) ++ (List.range' 2 n).map Obs.ev ∧
+    writtenOf s.log = [] ∧
+    Obs.countP isFin s.log = 1 ∧
+    Obs.countP isErr s.log = (if t + 1 < f then 1 else 0) ∧
+    s.pending = .none := by
+  intro s
+  obtain ⟨hl, hp⟩ := C14L.run_reversed c hseq hnf f t hrange ht0 htf hfl n
+  have hmk := C14L.range'_map_mk 2 n
+  refine ⟨hl, ?_, ?_, ?_, hp⟩
+  · show writtenOf s.log = []
+    rw [hl, writtenOf_eq, C14L.written_append, C14L.written_append, C14L.written_of_mk hmk]
+    split <;> simp [C14L.written, err, fin]
+  · show Obs.countP isFin s.log = 1
+    rw [hl, isFin_eq, C14L.cnt_append, C14L.cnt_append, C14L.cnt_of_mk C14L.mk_not_fin hmk]
+    split <;> simp [C14L.cnt_cons]
+  · show Obs.countP isErr s.log = _
+    rw [hl, isErr_eq, C14L.cnt_append, C14L.cnt_append, C14L.cnt_of_mk C14L.mk_not_err hmk]
+    split <;> simp [C14L.cnt_cons]
+
+/-! ### non-vacuity -/
+
+private def abcdefg : Bytes := [65, 66, 67, 68, 69, 70, 71]
+private def cfgR : Cfg := { src := abcdefg, block := 3, range := some (2, 5) }
+
+-- "ABCDEFG", block 3, range (2,5), start + 4 turns: "CDEF" is written, one fin, `holds`
+example : writtenOf (Copier.run cfgR [.start, .turn, .turn, .turn, .turn]).log = [67, 68, 69, 70] := by decide
+example : Obs.countP isFin (Copier.run cfgR [.start, .turn, .turn, .turn, .turn]).log = 1 := by decide
+example : holds cfgR [.start, .turn, .turn, .turn, .turn]
+    (Copier.run cfgR [.start, .turn, .turn, .turn, .turn]).log = true := by decide
+-- the hypotheses of `exact_random_access` are satisfiable, with a multi-block copy
+example : cfgR.seq = false ∧ anyFault cfgR = false ∧ cfgR.block ≥ 1 ∧ rangeOK cfgR = true ∧
+    4 ≥ (wanted cfgR).length / cfgR.block + 2 := by decide
+-- reversed range (5,2): error then completion, nothing written; empty range (3,2): completion only
+example : (Copier.run { cfgR with range := some (5, 2) } [.start, .turn, .turn]).log =
+    [.ev 0, .ev 1, err, fin, .ev 2] := by decide
+example : (Copier.run { cfgR with range := some (3, 2) } [.start, .turn, .turn]).log =
+    [.ev 0, .ev 1, fin, .ev 2] := by decide
 
 end Qhttp.C14
